@@ -57,9 +57,10 @@ def C10():
                   "multi-fields: every range [a,b] <= 48 with product <= 2310 (all x, all sub-products Q; all triples for P <= 35, all "
                   "pairs for P <= 210) plus [2,13], [2,23], [3,29], [2,37], [2,100], [2,541], [65519,65539], [32749,32771] with "
                   "boundary / structured operands where the class documents that size"),
-        "thorough": ("as quick with all triples for p <= 127, all pairs for every prime <= 1009, full conversion interval for p <= 257, "
-                     "boundary primes 32749, 32771, 46337, 65519, 65521; multi-fields: all triples for P <= 110, all pairs for "
-                     "P <= 2310"),
+        "thorough": ("as quick with all triples for p <= 211 (run-time classes, Field_Zp) and for the compile-time primes <= 257, all "
+                     "pairs for every prime <= 1009, full conversion interval for p <= 257, boundary primes 32749, 32771, 46337, "
+                     "65519, 65521; multi-fields: all triples for P <= 110 (GMP classes) / P <= 210 (native small classes), all pairs "
+                     "for P <= 2310 (P <= 1155 for the two run-time GMP classes and the cohomology Multi_field)"),
     },
     "assumptions": [
         "documented preconditions only: fused methods marked 'not overflow safe' are called only when the exact value fits the "
@@ -82,14 +83,14 @@ def C10():
             {"unit": "c10_mfsct2", "cores": 1},
         ],
         "thorough": [
-            {"unit": "c10_zp", "shards": 5, "cores": 1, "timeout": 2400},
+            {"unit": "c10_zp", "args": ["--t3", "211"], "shards": 5, "cores": 1, "timeout": 2400},
             {"unit": "c10_zpct0", "cores": 1, "timeout": 2400},
-            {"unit": "c10_zpct1", "cores": 1, "timeout": 2400},
-            {"unit": "c10_mf", "shards": 3, "cores": 1, "timeout": 2400},
-            {"unit": "c10_mfs", "shards": 3, "cores": 1, "timeout": 2400},
-            {"unit": "c10_mfct", "cores": 1, "timeout": 2400},
-            {"unit": "c10_mfsct0", "cores": 1, "timeout": 2400},
-            {"unit": "c10_mfsct1", "cores": 1, "timeout": 2400},
+            {"unit": "c10_zpct1", "args": ["--t3", "257"], "cores": 1, "timeout": 2400},
+            {"unit": "c10_mf", "args": ["--m2", "1155"], "shards": 6, "cores": 1, "timeout": 2400},
+            {"unit": "c10_mfs", "args": ["--m3", "210"], "shards": 3, "cores": 1, "timeout": 2400},
+            {"unit": "c10_mfct", "shards": 3, "cores": 1, "timeout": 2400},
+            {"unit": "c10_mfsct0", "args": ["--m3", "210"], "cores": 1, "timeout": 2400},
+            {"unit": "c10_mfsct1", "args": ["--m3", "210"], "cores": 1, "timeout": 2400},
             {"unit": "c10_mfsct2", "cores": 1, "timeout": 2400},
         ],
     },
